@@ -1123,10 +1123,10 @@ pub fn items(prop: &str, tier: Tier) -> Vec<Item> {
             for (ch, t, quiet) in [("", Term::Count, false), ("M", Term::Count, true), ("M", Term::CollectVec, true), ("M", Term::Reduce, true)] {
                 for c in [(1usize << 20) + 1, 1_500_000] {
                     for w in [6usize, 7] {
-                        if !th && (quiet && (w == 7 || c == 1_500_000 || t != Term::Count)) {
-                            continue;
+                        if !th && quiet {
+                            continue; // 8 million instrumented closure calls take ~30 s: thorough tier only
                         }
-                        let n = 3 * c + 7;
+                        let n = 8 * c + 7;
                         let mut cs = par(case(Src::SRange, 0, ch, t), w, CsSet::Exact(c));
                         cs.input = (0..n).map(|i| i as u8).collect();
                         cs.quiet = quiet;
